@@ -17,6 +17,14 @@ consumes it (`c20_express_agrees_with_evaluated_source`, `c20_get_value_agrees_w
                     a live genome that was built open and mutated once) -> (return value | raised, approved-flags of
                     the log entries the call appended, stored value afterwards).  3 x 2 x 4 x 2 points.
 
+  * replicateTable : (allow_mutations, callback present, mutation_rate > 0, inherit_expression, settings assigned late,
+                    gene silenced in the parent) -> what the child is born with: allow_mutations, on_mutation IS the
+                    parent's current callback, mutation_rate > 0, expression level of the gene, generation, parent_hash =
+                    the parent's hash, approved-flags of the child's log (random pass pinned to the identity mutation,
+                    callback refusing), parent left exactly as it was.  2^6 points.
+  * constructTable : allow_mutations -> what `Genome(genes=[t=1 (LOW), u=3, t=2 (HIGH)])` stores for the duplicated name
+                    (value, level, number of genes, log length).
+
 Fail closed: any exception while evaluating a point, or an observation outside the expected vocabulary, makes that
 entry `none`; the consuming theorem then fails.
 """
@@ -171,13 +179,85 @@ def eval_gate(m):
     return rows
 
 
+def _parent_view(g):
+    ex = g.export()
+    return (repr(ex), g.get_hash(), [(x.gene_name, x.original_value, x.new_value, x.reason, x.approved) for x in g._mutations],
+            g.allow_mutations, g.on_mutation, g.mutation_rate)
+
+
+def _repl_point(m, allow, cb, rate, inherit, late, silenced):
+    import random as _random
+    refuse = lambda mutation: False   # noqa
+    try:
+        gene = m.Gene(name="t", value=1, default_expression=m.ExpressionLevel.HIGH)
+        if late:
+            p = m.Genome(genes=[gene], allow_mutations=not allow, mutation_rate=0.0 if rate else 1.0,
+                         on_mutation=None if cb else refuse, silent=True)
+            p.allow_mutations = allow
+            p.on_mutation = refuse if cb else None
+            p.mutation_rate = 1.0 if rate else 0.0
+        else:
+            p = m.Genome(genes=[gene], allow_mutations=allow, mutation_rate=1.0 if rate else 0.0,
+                         on_mutation=refuse if cb else None, silent=True)
+        if silenced:
+            p.silence_gene("t")
+        before = _parent_view(p)
+        saved = _random.random
+        _random.random = lambda: 0.5
+        try:
+            c = p.replicate(inherit_expression=inherit)
+        finally:
+            _random.random = saved
+        same = _parent_view(p) == before
+        lv = c.export()["expression"]["t"]["level"]
+        if c is p or not isinstance(lv, int) or not 0 <= lv <= 4 or c.get_gene("t").value != 1:
+            return None
+        return (bool(c.allow_mutations), c.on_mutation is p.on_mutation, c.mutation_rate > 0, lv,
+                c.export()["generation"], c.export()["parent_hash"] == p.get_hash(),
+                [bool(x.approved) for x in c._mutations], same)
+    except Exception:  # noqa
+        return None
+
+
+def eval_replicate(m):
+    rows = []
+    B = (False, True)
+    for allow in B:
+        for cb in B:
+            for rate in B:
+                for inherit in B:
+                    for late in B:
+                        for silenced in B:
+                            key = (allow, cb, rate, inherit, late, silenced)
+                            rows.append((key, _repl_point(m, *key)))
+    return rows
+
+
+def eval_construct(m):
+    rows = []
+    for allow in (False, True):
+        try:
+            g = m.Genome(genes=[m.Gene(name="t", value=1, default_expression=m.ExpressionLevel.LOW),
+                                m.Gene(name="u", value=3),
+                                m.Gene(name="t", value=2, default_expression=m.ExpressionLevel.HIGH)],
+                         allow_mutations=allow, silent=True)
+            ex = g.export()
+            r = (g.get_gene("t").value, ex["expression"]["t"]["level"], len(ex["genes"]), len(g._mutations))
+            if not all(type(x) is int and x >= 0 for x in r) or r[1] > 4:
+                r = None
+        except Exception:  # noqa
+            r = None
+        rows.append((allow, r))
+    return rows
+
+
 def render(m) -> tuple[str, dict]:
     info = {"poisoned": []}
     if m is None:
-        ex, gv, gt = [], [], []
+        ex, gv, gt, rp, cs = [], [], [], [], []
         info["poisoned"].append("module not importable")
     else:
-        ex, gv, gt = eval_express(m), eval_get_value(m), eval_gate(m)
+        ex, gv, gt, rp, cs = eval_express(m), eval_get_value(m), eval_gate(m), eval_replicate(m), eval_construct(m)
     out = ("import Operon.Model.Genome\n"
            "/- GENERATED by harness/vf/extract/eval_genome.py on every run by EVALUATING the Genome class of the tree under\n"
            "   test on finite domains (nothing is parsed); do not edit.  `none` = the evaluation of that point failed or its\n"
@@ -214,6 +294,32 @@ def render(m) -> tuple[str, dict]:
             ret, flags, v = r
             lines.append(f"  ({key}, some ({_opt(ret, _lean_bool)}, [{', '.join(_lean_bool(f) for f in flags)}], {v}))")
     out += ",\n".join(lines) + "]\n\n"
+    out += ("/-- (allow_mutations, callback present, mutation_rate > 0, inherit_expression, settings assigned late, gene silenced\n"
+            "    in the parent) ↦ the child `replicate()` returns: (allow_mutations, on_mutation is the parent's, mutation_rate > 0,\n"
+            "    level of the gene, generation, parent_hash = parent's hash, approved-flags of its log, parent untouched) -/\n"
+            "def replicateTable : List ((Bool × Bool × Bool × Bool × Bool × Bool) × Option ChildView) := [\n")
+    lines = []
+    for key, r in rp:
+        ks = "(" + ", ".join(_lean_bool(b) for b in key) + ")"
+        if r is None:
+            info["poisoned"].append(f"replicate {key}")
+            lines.append(f"  ({ks}, none)")
+        else:
+            a, same_cb, rt, lv, gen, ph, flags, same = r
+            lines.append(f"  ({ks}, some ⟨{_lean_bool(a)}, {_lean_bool(same_cb)}, {_lean_bool(rt)}, some .{LEVELS[lv]}, {gen}, "
+                         f"{_lean_bool(ph)}, [{', '.join(_lean_bool(f) for f in flags)}], {_lean_bool(same)}⟩)")
+    out += ",\n".join(lines) + "]\n\n"
+    out += ("/-- allow_mutations ↦ `Genome(genes=[t=1 (LOW), u=3, t=2 (HIGH)])`: (stored value of t, level of t, number of genes,\n"
+            "    length of the log) -/\n"
+            "def constructTable : List (Bool × Option (Nat × Option Level × Nat × Nat)) := [\n")
+    lines = []
+    for allow, r in cs:
+        if r is None:
+            info["poisoned"].append(f"construct {allow}")
+            lines.append(f"  ({_lean_bool(allow)}, none)")
+        else:
+            lines.append(f"  ({_lean_bool(allow)}, some ({r[0]}, some .{LEVELS[r[1]]}, {r[2]}, {r[3]}))")
+    out += ",\n".join(lines) + "]\n\n"
     out += "end Operon.Genome.Gen\n"
     return out, info
 
@@ -221,7 +327,7 @@ def render(m) -> tuple[str, dict]:
 def run(lean_dir: Path, write_if_changed, module=None) -> list[dict]:
     text, info = render(module)
     changed = write_if_changed(Path(lean_dir) / "Operon/Gen/GenomeTables.lean", text)
-    return [{"id": "eval-genome", "facts_changed": bool(changed), "points": 50 + 5 + 48, "poisoned": info["poisoned"]}]
+    return [{"id": "eval-genome", "facts_changed": bool(changed), "points": 50 + 5 + 48 + 64 + 2, "poisoned": info["poisoned"]}]
 
 
 if __name__ == "__main__":
